@@ -1566,7 +1566,7 @@ func (ctx *RenderContext) evaluateBinaryOp(operator string, left, right interfac
 				if rNum == 0 {
 					return nil, errors.New("modulo by zero")
 				}
-				return math.Mod(lNum, rNum), nil
+				return math.Mod(lNum, rNum) + 0, nil // (+ 0: a remainder of zero is 0, not -0)
 			}
 		}
 
